@@ -42,3 +42,6 @@ def run(ctx):
     from .. import state as _state
 
     _state.process_state(ctx)  # a subspace and its localised companion are built per space: no table shared through module-level state under an incomplete key
+    from .. import misc_guards as _mg
+
+    _mg.inverse_dof_map(ctx)  # (tools/wiring.py) the subspace's global2local is what its colouring and congruence map are read from
